@@ -717,7 +717,11 @@ theorem intLevel_ite3 (a b : Prop) [Decidable a] [Decidable b] :
 /-- the `ampdel` levels are −1 / 0 / 1 -/
 theorem levelAmpdel_int (r : Seg) : IntLevel (levelAmpdel r) := (intLevel_ite3 _ _).1
 theorem levelCi_int (r : Seg) : IntLevel (levelCi r) := (intLevel_ite3 _ _).2
-theorem levelSem_int (r : Seg) : IntLevel (levelSem r) := (intLevel_ite3 _ _).2
+theorem levelSem_int (r : Seg) : IntLevel (levelSem r) := by
+  unfold levelSem
+  cases r.sem with
+  | none => exact ⟨0, rfl⟩
+  | some s => exact (intLevel_ite3 _ _).2
 
 set_option linter.unusedSimpArgs false in
 /-- a run kept by `ampdel` consists only of deleted (cn = 0) or only of amplified (cn ≥ 5) segments -/
